@@ -59,6 +59,9 @@ def check(ck: Checker) -> None:
 
     _r4.text_ratio_exact(ck, "C14.ratio")
     _r4.hash_file_digest_sources(ck, "C14.select")
+    from . import round7 as _r7
+
+    _r7.meta_from_info_own_keys(ck, "C14.select")
 
 
 
